@@ -4,22 +4,46 @@ import Lattigo.Proofs.CKKSAlign
 import Lattigo.Proofs.CKKSPhase
 import Lattigo.Proofs.CKKSDefects
 import Lattigo.Proofs.CKKSFixedPoint
+import Lattigo.Proofs.CKKSError
+import Lattigo.Proofs.CKKSMetaTable
+import Mathlib.Analysis.Normed.Field.Lemmas
 import Lattigo.Props.C06Ring
 /-!
-# C06 — CKKS evaluation: scale / level bookkeeping and phase semantics  (property theorems)
+# C06 — CKKS evaluation: scale / level bookkeeping, phase semantics, error bounds  (property theorems)
 
-All statements are about `Lattigo.CKKS.step` and its components, the definitions the driver executes
-(`Driver/C06.lean`) and the harness ties bit-exactly to `schemes/ckks/evaluator.go` (`harness/c06.go`:
-metadata *and* the integer effect of each call, read back from transparent ciphertexts).
+The executable model is `Lattigo.CKKS.step` (`Model/CKKS.lean`): for every public `ckks.Evaluator` call the output
+metadata (level, degree, scale as an exact dyadic with `big.Float`'s 128-bit rounding, `LogDimensions.Cols`) and the
+integer effect on every component of the result.  `Driver/C06.lean` executes it; `harness/c06.go` ties both, bit for
+bit, to `schemes/ckks/evaluator.go` (metadata + multipliers read back from transparent ciphertexts).
 
-Scope.  The theorems live at the metadata / coefficient-phase level.  "Decoded value within the bound
-implied by scales and noise" is a measured probe (`program_precision`), not a theorem: noise and the
-floating-point FFT are not modelled.  The property's second sentence ("the scale and level recorded on
-every output are exactly those the operation documents … so that decoding with the recorded scale is
-correct") was FALSE of the code as written for several calls.  The defects with a small, safe repair are
-fixed in the repository (`/verif/fixes/C06-*.diff`); the model follows the patched code and the former
-counterexamples are now positive statements (`*_fixed`).  The remaining ones need an API / documentation
-decision; they are recorded as known findings and keep their `*_counterexample` witnesses.
+State of the clauses of the property text
+* "scale and level recorded on every output are exactly those the operation documents" —
+  PROVED for all inputs on the model: `meta_spec_*` (every operation incl. the vector, `…ThenAdd` and receiver forms),
+  `meta_New_*` (the `…New` forms: the receiver matters only through its level), `rescale_scale_exact(_two)`,
+  `scale_mul/div_correctly_rounded` (the rounding of `Scale.Mul/Div` is a correct rounding, relative error ≤ 2^-128),
+  `const_scale_*`, `lcpr_one_or_two`, `mulThenAdd_scale_*` (the scale-matching decision table of `MulThenAdd`).
+  Where the code deviates from the documented behaviour the model follows the code and the deviation is a theorem with
+  a concrete witness (`*_counterexample`: known findings, not repaired) or, after the fixes `C06-1…6`, a positive
+  statement (`*_fixed`).
+* "decrypting and decoding gives the slot-wise result … with an error no larger than the bound implied by the scales,
+  the rescaling roundings and the accumulated noise" —
+  PROVED in exact arithmetic for every operation as an explicit bound (`error_bound_*`, § error bounds): the value a
+  ciphertext decodes to in one slot is `σ(phase)/Δ` for a coordinate `σ` of the canonical embedding (any ring
+  homomorphism into a normed field); the bounds are composed from the phase identities `phase_*` (every commutative
+  ring; on RNS polynomials: `Props/C06Ring.lean`), the rounding remainder of `Rescale` (`rescale_remainder`: ≤ 1/2 per
+  coefficient after division; `embedding_bound`: ≤ N/2 per slot), the constant rounding (`rnsConst_error`) and the
+  alignment error (`add_alignment_error`).  The noise terms themselves (fresh encryption, key switching) enter as the
+  hypotheses `ea`, `‖σ eks‖`: they are C03/C04's theorems, not re-derived here.  NOT modelled: reduction modulo `Q`
+  (the bounds hold as long as the message fits, which the probes check), the float64/`big.Float` FFT of the encoder
+  (C07), so "decode" is the exact embedding.  The end-to-end statement on the real code is the probe
+  `program_precision` (+ `history`, `rescale-chain`, `addelt-degree-scale`), with a bound of the same shape.
+* rotation / conjugation: metadata only (`meta_spec_rotate`); slot semantics and keys are C11.
+
+Tied only (no general theorem): the driver op `params` (`encodingPrecision`, `levelsConsumed` from the default scale;
+only `lcpr_one_or_two` is proved); the integer effects of `mtaelt/mtasc/mtavec/setscale/addsc` (characterised by the
+decision theorems `mulThenAdd_scale_*` and by witnesses, not by a closed per-component formula as for `addElt`
+(`add_alignment`), `mulScalar`, `scaleUp`).  Every other driver op has a `meta_spec_*` statement.
+Probed only: input immutability (`inputs_unchanged`), output independence (`output_independent`), no panics.
 -/
 namespace Lattigo.Props.C06
 open Lattigo.CKKS
@@ -249,6 +273,160 @@ example : (dy 1 0).m ≠ 0 := by decide +kernel
 theorem const_scale_low_level_is_error {P : Params} (h : P.lcpr = 2) : primeScale P 0 = .error .err :=
   primeScale_low_level h
 
+
+/-! ## the rest of the metadata table: vector operands, `…New` forms, `MulThenAdd` scale matching -/
+
+/-- Mul (vector): encoded at the `lcpr` current primes; level / degree / dimensions as for a scalar. -/
+theorem meta_spec_mulVec {P : Params} {a o : Meta} {len : Nat} {r : Res} (h : step P (.mulVec a o len) = .ok r) :
+    ∃ s, primeScale P (min a.level o.level) = .ok s ∧
+      r.md = ⟨min a.level o.level, a.degree, smul a.scale s, a.logSlots⟩ ∧ len ≤ 2 ^ a.logSlots ∧ 0 < a.degree :=
+  mulVec_meta h
+example : step toyP (.mulVec ⟨2, 1, dy 16 0, 3⟩ ⟨2, 1, dy 16 0, 4⟩ 8) = .ok ⟨⟨2, 1, ⟨1019, 4⟩, 3⟩, []⟩ := by
+  decide +kernel
+
+/-- MulThenAdd (vector): fresh receiver, minimum level, `op0`'s dimensions, length check, `op0.Scale ≤ opOut.Scale`. -/
+theorem meta_spec_mulThenAddVec {P : Params} {al : Alias} {a o : Meta} {len : Nat} {r : Res}
+    (h : step P (.mtaVec al a o len) = .ok r) :
+    al = .fresh ∧ r.md.level = min a.level o.level ∧ r.md.logSlots = a.logSlots ∧ len ≤ 2 ^ a.logSlots ∧
+    a.scale.cmp o.scale ≠ .gt := mulThenAddVec_meta h
+example : step toyP (.mtaVec .fresh ⟨2, 1, dy 16 0, 3⟩ ⟨2, 1, dy 16 0, 3⟩ 8)
+    = .ok ⟨⟨2, 1, ⟨1019, 4⟩, 3⟩, [1019, 1019]⟩ := by decide +kernel
+
+theorem meta_spec_conjugate {P : Params} {a o : Meta} {r : Res} (h : step P (.conjugate a o) = .ok r) :
+    P.conjInv = false ∧ a.degree = 1 ∧ o.degree = 1 ∧ r.md.scale = a.scale ∧ r.md.degree = 1 ∧
+    r.md.logSlots = a.logSlots ∧ r.md.level = (if P.nthRoot - 1 = 1 then a.level else min a.level o.level) :=
+  conjugate_meta h
+example : step { toyP with galEls := [5, 25, 63] } (.conjugate ⟨2, 1, dy 16 0, 4⟩ ⟨1, 1, dy 16 0, 4⟩)
+    = .ok ⟨⟨1, 1, dy 16 0, 4⟩, []⟩ := by decide +kernel
+
+theorem meta_spec_scaleUp {P : Params} {a o : Meta} {s : Dy} {r : Res} (h : step P (.scaleUp a o s) = .ok r) :
+    r.md = ⟨min a.level o.level, a.degree, smul a.scale s, a.logSlots⟩ ∧
+    r.eff = perComp a.degree (fun _ => [centerMod (bigIntConst P s.toU64) (P.bigQ (min a.level o.level))]) :=
+  scaleUp_meta h
+
+/-- the `…New` forms (`AddNew`, `SubNew`, `MulNew`, `MulRelinNew`, `ScaleUpNew`, `RotateNew`, `ConjugateNew`,
+    `RelinearizeNew`): the receiver enters the result only through its level (automorphisms: and its degree), so a
+    receiver allocated as `NewCiphertext(op0.Degree(), op0.Level())` at ANY scale / dimensions gives the table above
+    with `o.level = a.level`. -/
+theorem meta_New_add {P : Params} {sub : Bool} {a b o o' : Meta} (h : o.level = o'.level) :
+    step P (.addElt sub a b o) = step P (.addElt sub a b o') := addElt_receiver h
+theorem meta_New_addScalar {P : Params} {sub : Bool} {a o o' : Meta} {re im : SD} (h : o.level = o'.level) :
+    step P (.addScalar sub a o re im) = step P (.addScalar sub a o' re im) := addScalar_receiver h
+theorem meta_New_addVec {P : Params} {a o o' : Meta} {len : Nat} (h : o.level = o'.level) :
+    step P (.addVec a o len) = step P (.addVec a o' len) := addVec_receiver h
+theorem meta_New_mul {P : Params} {relin : Bool} {a b o o' : Meta} (h : o.level = o'.level) :
+    step P (.mulElt relin a b o) = step P (.mulElt relin a b o') := mulElt_receiver h
+theorem meta_New_mulScalar {P : Params} {a o o' : Meta} {re im : SD} (h : o.level = o'.level) :
+    step P (.mulScalar a o re im) = step P (.mulScalar a o' re im) := mulScalar_receiver h
+theorem meta_New_mulVec {P : Params} {a o o' : Meta} {len : Nat} (h : o.level = o'.level) :
+    step P (.mulVec a o len) = step P (.mulVec a o' len) := mulVec_receiver h
+theorem meta_New_scaleUp {P : Params} {a o o' : Meta} {s : Dy} (h : o.level = o'.level) :
+    step P (.scaleUp a o s) = step P (.scaleUp a o' s) := scaleUp_receiver h
+theorem meta_New_rotate {P : Params} {k : Int} {a o o' : Meta} (h : o.level = o'.level) (hd : o.degree = o'.degree) :
+    step P (.rotate k a o) = step P (.rotate k a o') := automorphism_receiver h hd
+theorem meta_New_relinearize {P : Params} {a o o' : Meta} (h : o.level = o'.level) :
+    step P (.relinearize a o) = step P (.relinearize a o') := relinearize_receiver h
+/-- `AddNew/SubNew`, `MulNew/MulRelinNew`: the lower of the operands' levels; `AddNew(ct, scalar)`: `op0`'s metadata. -/
+theorem meta_New_levels {P : Params} {sub relin : Bool} {a b : Meta} {ds : Dy} {lm : Nat} :
+    (∀ r, step P (.addElt sub a b (newRecv a ds lm)) = .ok r → r.md.level = min a.level b.level) ∧
+    (∀ r, step P (.mulElt relin a b (newRecv a ds lm)) = .ok r → r.md.level = min a.level b.level) ∧
+    (∀ re im r, step P (.addScalar sub a (newRecv a ds lm) re im) = .ok r → r.md = a) :=
+  ⟨fun _ h => addNew_level h, fun _ h => mulNew_level h, fun _ _ _ h => addScalarNew_meta h⟩
+example : step toyP (.addScalar false ⟨2, 1, dy 64 0, 3⟩ (newRecv ⟨2, 1, dy 64 0, 3⟩ (dy 16 0) 4) (sd 1 0) (sd 0 0))
+    = .ok ⟨⟨2, 1, dy 64 0, 3⟩, [64, 0, 1, 1]⟩ := by decide +kernel
+
+/-- **MulThenAdd scale matching** (element operands): the receiver is left alone if its scale is not below the
+    product scale or if the ratio is below 2; otherwise it is multiplied by the RNS constant of the ratio and
+    recorded at the product scale. -/
+theorem mulThenAdd_scale_ge {P : Params} {level : Nat} {a b o : Meta}
+    (h : o.scale.lt (smul a.scale b.scale) = false) : mtaEltScale P level a b o = .ok (1, o.scale) := mtaEltScale_ge h
+theorem mulThenAdd_scale_lt2 {P : Params} {level : Nat} {a b o : Meta} (h : o.scale.lt (smul a.scale b.scale) = true)
+    (h2 : (toF64 (sdiv (smul a.scale b.scale) o.scale)).cmp (Dy.ofNat 2) = .lt) :
+    mtaEltScale P level a b o = .ok (1, o.scale) := mtaEltScale_lt2 h h2
+theorem mulThenAdd_scale_up {P : Params} {level : Nat} {a b o : Meta} {s : Dy}
+    (h : o.scale.lt (smul a.scale b.scale) = true)
+    (h2 : (toF64 (sdiv (smul a.scale b.scale) o.scale)).cmp (Dy.ofNat 2) ≠ .lt)
+    (hs : scalarScale P level ⟨false, sdiv (smul a.scale b.scale) o.scale⟩ ⟨false, Dy.zero⟩ = .ok s) :
+    mtaEltScale P level a b o
+      = .ok ((consts P ⟨false, sdiv (smul a.scale b.scale) o.scale⟩ ⟨false, Dy.zero⟩ s).1, smul a.scale b.scale) :=
+  mtaEltScale_scaleUp h h2 hs
+example : mtaEltScale toyP 2 ⟨2, 1, dy 16 0, 4⟩ ⟨2, 1, dy 4 0, 4⟩ ⟨2, 1, dy 16 0, 4⟩ = .ok (4, dy 64 0) := by decide +kernel
+/-- scalar / vector operands: equal scales and a Gaussian integer ↦ factor 1; equal scales otherwise ↦ receiver and
+    constant scaled by the current prime(s); `op0.Scale < opOut.Scale` ↦ constant at the quotient; `>` ↦ error. -/
+theorem mulThenAdd_scalar_scale {P : Params} {level : Nat} {a o : Meta} :
+    (a.scale.cmp o.scale = .eq → mtaScale P level true a o = .ok (Dy.one, 1, o.scale)) ∧
+    (∀ s, a.scale.cmp o.scale = .eq → primeScale P level = .ok s →
+      mtaScale P level false a o = .ok (s, bigIntConst P s.toNat, smul (smul o.scale Dy.one) s)) ∧
+    (∀ isInt, a.scale.cmp o.scale = .lt → mtaScale P level isInt a o = .ok (sdiv o.scale a.scale, 1, o.scale)) ∧
+    (∀ isInt, a.scale.cmp o.scale = .gt → mtaScale P level isInt a o = .error .err) :=
+  ⟨mtaScale_eq_int, fun _ h hs => mtaScale_eq_nonint h hs, fun _ h => mtaScale_lt h, fun _ h => mtaScale_gt h⟩
+/-- in the `<` case the product lands at `op0.Scale·S`, equal to the receiver's scale up to a relative `2^-128`. -/
+theorem mulThenAdd_scalar_scale_match (a o : Dy) (ha : 0 < a.m) (ho : 0 < o.m) :
+    |a.val * (sdiv o a).val - o.val| ≤ o.val * (2 : ℚ) ^ (-(128 : ℤ)) := mtaScale_lt_match a o ha ho
+example : (0 : ℕ) < (dy 3 5).m ∧ (0 : ℕ) < (dy 7 9).m := by decide +kernel
+
+/-! ## error bounds (exact arithmetic; `σ` one coordinate of the canonical embedding, `decode σ s Δ c = σ(phase s c)/Δ`) -/
+section
+variable {α : Type*} [CommRing α] {K : Type*} [NormedField K] {σ : α →+* K}
+
+theorem error_bound_Add {s : α} {Δ : K} {a b : Ct α} {va vb : K} {ea eb : ℝ}
+    (ha : ‖decode σ s Δ a - va‖ ≤ ea) (hb : ‖decode σ s Δ b - vb‖ ≤ eb) :
+    ‖decode σ s Δ (Ct.lin 1 1 a b) - (va + vb)‖ ≤ ea + eb := error_bound_add ha hb
+theorem error_bound_Sub {s : α} {Δ : K} {a b : Ct α} {va vb : K} {ea eb : ℝ}
+    (ha : ‖decode σ s Δ a - va‖ ≤ ea) (hb : ‖decode σ s Δ b - vb‖ ≤ eb) :
+    ‖decode σ s Δ (Ct.lin 1 (-1) a b) - (va - vb)‖ ≤ ea + eb := error_bound_sub ha hb
+/-- unequal scales: `κ = k·Δa/Δb`; the last term is the alignment error, zero iff `k·Δa = Δb`. -/
+theorem error_bound_AddAligned {s k : α} {Δa Δb : K} {a b : Ct α} {va vb : K} {ea eb : ℝ} (hΔa : Δa ≠ 0) (hΔb : Δb ≠ 0)
+    (ha : ‖decode σ s Δa a - va‖ ≤ ea) (hb : ‖decode σ s Δb b - vb‖ ≤ eb) :
+    ‖decode σ s Δb (Ct.lin k 1 a b) - (va + vb)‖
+      ≤ ‖σ k * Δa / Δb‖ * ea + eb + ‖va‖ * ‖σ k * Δa / Δb - 1‖ := error_bound_add_aligned hΔa hΔb ha hb
+theorem error_bound_Mul {s : α} {Δa Δb : K} {a b : Ct α} {va vb : K} {ea eb : ℝ} (h2a : a.c2 = 0) (h2b : b.c2 = 0)
+    (ha : ‖decode σ s Δa a - va‖ ≤ ea) (hb : ‖decode σ s Δb b - vb‖ ≤ eb) :
+    ‖decode σ s (Δa * Δb) (Ct.tensor a b) - va * vb‖ ≤ ‖va‖ * eb + ‖vb‖ * ea + ea * eb :=
+  error_bound_mul h2a h2b ha hb
+theorem error_bound_MulRelin {s k0 k1 : α} {Δa Δb : K} {a b : Ct α} {va vb : K} {ea eb : ℝ}
+    (h2a : a.c2 = 0) (h2b : b.c2 = 0) (ha : ‖decode σ s Δa a - va‖ ≤ ea) (hb : ‖decode σ s Δb b - vb‖ ≤ eb) :
+    ‖decode σ s (Δa * Δb) (Ct.relin k0 k1 (Ct.tensor a b)) - va * vb‖
+      ≤ ‖va‖ * eb + ‖vb‖ * ea + ea * eb + ‖σ (k0 + k1 * s - a.c1 * b.c1 * s ^ 2)‖ / ‖Δa * Δb‖ :=
+  error_bound_mulRelin h2a h2b ha hb
+theorem error_bound_MulScalar {s c : α} {Δ S : K} {a : Ct α} {va cv : K} {ea η : ℝ}
+    (ha : ‖decode σ s Δ a - va‖ ≤ ea) (hc : ‖σ c / S - cv‖ ≤ η) :
+    ‖decode σ s (Δ * S) (Ct.smul c a) - cv * va‖ ≤ ‖cv‖ * ea + ‖va‖ * η + η * ea := error_bound_mulScalar ha hc
+theorem error_bound_AddScalar {s c : α} {Δ : K} {a : Ct α} {va cv : K} {ea η : ℝ}
+    (ha : ‖decode σ s Δ a - va‖ ≤ ea) (hc : ‖σ c / Δ - cv‖ ≤ η) :
+    ‖decode σ s Δ (Ct.addConst c a) - (va + cv)‖ ≤ ea + η := error_bound_addScalar ha hc
+/-- Rescale with the scale divided by `q` exactly; `‖σ(r0 + r1·s)‖ ≤ N·(q/2)·(1 + ‖σ s‖)` by `rescale_remainder`,
+    `embedding_bound` and `rescale_remainder_bound`, i.e. at most `N(1+‖σ s‖)/2` units of the new phase. -/
+theorem error_bound_Rescale {s q c0 c1 c0' c1' r0 r1 : α} {Δ : K} {v : K} {e : ℝ}
+    (h0 : q * c0' = c0 - r0) (h1 : q * c1' = c1 - r1) (h : ‖decode σ s Δ ⟨c0, c1, 0⟩ - v‖ ≤ e) :
+    ‖decode σ s (Δ / σ q) ⟨c0', c1', 0⟩ - v‖ ≤ e + ‖σ (r0 + r1 * s)‖ / ‖Δ‖ := error_bound_rescale h0 h1 h
+theorem rescale_remainder_bound {s r0 r1 : α} {R : ℝ} (h0 : ‖σ r0‖ ≤ R) (h1 : ‖σ r1‖ ≤ R) :
+    ‖σ (r0 + r1 * s)‖ ≤ R * (1 + ‖σ s‖) := rescale_remainder_embedded h0 h1
+theorem embedding_bound (N : ℕ) (r : ℕ → K) (ζ : K) (B : ℝ) (hζ : ‖ζ‖ = 1) (hr : ∀ i < N, ‖r i‖ ≤ B) :
+    ‖∑ i ∈ Finset.range N, r i * ζ ^ i‖ ≤ N * B := Lattigo.CKKS.embedding_bound N r ζ B hζ hr
+/-- decoding with the recorded (128-bit rounded) scale `Δ'` instead of the exact one. -/
+theorem error_bound_RecordedScale {s : α} {Δ Δ' : K} {c : Ct α} {v : K} {e : ℝ} (hΔ : Δ ≠ 0)
+    (h : ‖decode σ s Δ c - v‖ ≤ e) :
+    ‖decode σ s Δ' c - v‖ ≤ ‖Δ / Δ'‖ * e + ‖v‖ * ‖Δ / Δ' - 1‖ := error_bound_recorded_scale hΔ h
+theorem error_bound_MulThenAdd {s kOut : α} {Δo Δa Δb : K} {o a b : Ct α} {vo va vb : K} {eo ea eb : ℝ}
+    (h2a : a.c2 = 0) (h2b : b.c2 = 0) (hΔo : Δo ≠ 0)
+    (ho : ‖decode σ s Δo o - vo‖ ≤ eo) (ha : ‖decode σ s Δa a - va‖ ≤ ea) (hb : ‖decode σ s Δb b - vb‖ ≤ eb) :
+    ‖decode σ s (Δa * Δb) (Ct.lin kOut 1 o (Ct.tensor a b)) - (vo + va * vb)‖
+      ≤ ‖σ kOut * Δo / (Δa * Δb)‖ * eo + ‖vo‖ * ‖σ kOut * Δo / (Δa * Δb) - 1‖
+        + (‖va‖ * eb + ‖vb‖ * ea + ea * eb) := error_bound_mulThenAdd h2a h2b hΔo ho ha hb
+theorem error_bound_MulThenAddScalar {s kOut c : α} {Δo Δ S : K} {o a : Ct α} {vo va cv : K} {eo ea η : ℝ}
+    (hΔo : Δo ≠ 0) (hΔ : Δ ≠ 0)
+    (ho : ‖decode σ s Δo o - vo‖ ≤ eo) (ha : ‖decode σ s Δ a - va‖ ≤ ea) (hc : ‖σ c / S - cv‖ ≤ η) :
+    ‖decode σ s (Δ * S) (Ct.lin kOut c o a) - (vo + cv * va)‖
+      ≤ ‖σ kOut * Δo / (Δ * S)‖ * eo + ‖vo‖ * ‖σ kOut * Δo / (Δ * S) - 1‖
+        + (‖cv‖ * ea + ‖va‖ * η + η * ea) := error_bound_mulThenAddScalar hΔo hΔ ho ha hc
+end
+/-- the hypotheses are satisfiable (`α = ℤ`, `K = ℝ`, `σ` the cast, secret `s = 1`): `(3,5)` decodes to `2` at
+    scale 4 exactly, `(7,-1)` to `3` at scale 2 within `0`; the product bound then gives `6` within `0`. -/
+example : ‖decode (Int.castRingHom ℝ) (1 : ℤ) ((4 : ℝ) * 2) (Ct.tensor ⟨3, 5, 0⟩ ⟨7, -1, 0⟩) - 2 * 3‖
+    ≤ ‖(2 : ℝ)‖ * 0 + ‖(3 : ℝ)‖ * 0 + 0 * 0 :=
+  error_bound_Mul rfl rfl (by simp [decode, phase]; norm_num) (by simp [decode, phase]; norm_num)
+
 /-! ## phase-level semantics (any commutative ring) -/
 section
 variable {α : Type*} [CommRing α]
@@ -327,3 +505,35 @@ end Lattigo.Props.C06
 #print axioms Lattigo.Props.C06.phase_MulThenAdd
 #print axioms Lattigo.Props.C06.phase_Rescale
 #print axioms Lattigo.Props.C06.rescale_remainder
+#print axioms Lattigo.Props.C06.meta_spec_mulVec
+#print axioms Lattigo.Props.C06.meta_spec_scaleUp
+#print axioms Lattigo.Props.C06.meta_New_add
+#print axioms Lattigo.Props.C06.meta_New_addScalar
+#print axioms Lattigo.Props.C06.meta_New_addVec
+#print axioms Lattigo.Props.C06.meta_New_mul
+#print axioms Lattigo.Props.C06.meta_New_mulScalar
+#print axioms Lattigo.Props.C06.meta_New_mulVec
+#print axioms Lattigo.Props.C06.meta_New_scaleUp
+#print axioms Lattigo.Props.C06.meta_New_rotate
+#print axioms Lattigo.Props.C06.meta_New_relinearize
+#print axioms Lattigo.Props.C06.meta_New_levels
+#print axioms Lattigo.Props.C06.mulThenAdd_scale_ge
+#print axioms Lattigo.Props.C06.mulThenAdd_scale_lt2
+#print axioms Lattigo.Props.C06.mulThenAdd_scale_up
+#print axioms Lattigo.Props.C06.mulThenAdd_scalar_scale
+#print axioms Lattigo.Props.C06.mulThenAdd_scalar_scale_match
+#print axioms Lattigo.Props.C06.error_bound_Add
+#print axioms Lattigo.Props.C06.error_bound_Sub
+#print axioms Lattigo.Props.C06.error_bound_AddAligned
+#print axioms Lattigo.Props.C06.error_bound_Mul
+#print axioms Lattigo.Props.C06.error_bound_MulRelin
+#print axioms Lattigo.Props.C06.error_bound_MulScalar
+#print axioms Lattigo.Props.C06.error_bound_AddScalar
+#print axioms Lattigo.Props.C06.error_bound_Rescale
+#print axioms Lattigo.Props.C06.rescale_remainder_bound
+#print axioms Lattigo.Props.C06.embedding_bound
+#print axioms Lattigo.Props.C06.error_bound_RecordedScale
+#print axioms Lattigo.Props.C06.error_bound_MulThenAdd
+#print axioms Lattigo.Props.C06.error_bound_MulThenAddScalar
+#print axioms Lattigo.Props.C06.meta_spec_mulThenAddVec
+#print axioms Lattigo.Props.C06.meta_spec_conjugate
